@@ -26,7 +26,7 @@ func init() {
 			"(commit-after-auth) every hand-over of it (channel send, return, append, store into an outer variable) is reachable only over the nil edge of authenticateTransport(.., that connection, .., receiver role); " +
 			"(elected) in runTransfer the hand-over send into the channel runTransfer itself receives from is additionally reachable only through a successful atomic CompareAndSwap (one primary connection, a second winner closes itself); " +
 			"(elect-after-auth) the CompareAndSwap itself is reached only past that authentication; (authenticated-kept) a connection past its authentication is closed only in the default clause of the select that hands it over; " +
-			"(owned) from the success edge of the Accept/Dial (or the closure entry) every path closes the connection, hands it over or delegates it to a closure that is checked the same way; " +
+			"(owned-select) every other clause of a select that hands the connection over closes it; (owned) from the success edge of the Accept/Dial (or the closure entry) every path closes the connection, hands it over or delegates it to a closure that is checked the same way; " +
 			"(failure-continues) an authentication failure on one extra connection does not leave the accept loop: from the failure edge every path reaches the Accept again, or the authentication runs in its own goroutine",
 		Run: runAcceptCommit,
 	})
@@ -445,6 +445,50 @@ func runAcceptCommit(c *Ctx) {
 				"an authenticated connection is closed only as the overflow of its hand-over",
 				"the intake closes a connection ("+cv.what+") on which the sender has authenticated: the sender authenticates on the primary connection and on each extra one, and dials the extras as soon as the primary is authenticated; closing one that arrives before the accept loop stopped fails the sender's extra connections and the receiver waits 10 s for them")
 		})
+		// (owned-select) go/cfg evaluates the communication of every select clause in the head block, so the path rule below
+		// sees a send that may not have been chosen: the other clauses of such a select must dispose of the connection themselves
+		nsel := 0
+		InspectNoLits(f.Body, func(m ast.Node) bool {
+			sl, ok := m.(*ast.SelectStmt)
+			if !ok {
+				return true
+			}
+			sends := false
+			for _, cl := range sl.Body.List {
+				if ss, ok := cl.(*ast.CommClause).Comm.(*ast.SendStmt); ok && mentionsNoLit(info, ss.Value, v) {
+					sends = true
+				}
+			}
+			if !sends {
+				return true
+			}
+			for _, cl := range sl.Body.List {
+				cc := cl.(*ast.CommClause)
+				if ss, ok := cc.Comm.(*ast.SendStmt); ok && mentionsNoLit(info, ss.Value, v) {
+					continue
+				}
+				nsel++
+				disposed := false
+				for _, st := range cc.Body {
+					if isClose(info, st, v) || isDelegation(f, st, v) {
+						disposed = true
+					}
+					InspectNoLits(st, func(x ast.Node) bool {
+						if ss, ok := x.(*ast.SendStmt); ok && mentionsNoLit(info, ss.Value, v) {
+							disposed = true
+						}
+						return true
+					})
+				}
+				what := "default"
+				if cc.Comm != nil {
+					what = types.ExprString(commExpr(cc.Comm))
+				}
+				c.Check(disposed, fmt.Sprintf("owned-select/%s#%d", key, nsel), cc.Pos(), "the clause taken when the hand-over send is not chosen closes the connection",
+					"when the hand-over send of the connection ("+cv.what+") is not chosen (clause `"+what+"`) the connection is neither closed nor handed over: it stays open at the sender until the idle timeout")
+			}
+			return true
+		})
 		owned := allPathsHit(cfg, cv.start, func(n ast.Node) bool {
 			return sinkNode[n] || isClose(info, n, v) || isDelegation(f, n, v)
 		}, func(ast.Node) bool { return false })
@@ -528,4 +572,18 @@ func startPos(f *FuncInfo, r NodeRef) token.Pos {
 		return r.B.Nodes[0].Pos()
 	}
 	return f.Pos()
+}
+
+func commExpr(s ast.Stmt) ast.Expr {
+	switch x := s.(type) {
+	case *ast.ExprStmt:
+		return x.X
+	case *ast.SendStmt:
+		return x.Chan
+	case *ast.AssignStmt:
+		if len(x.Rhs) == 1 {
+			return x.Rhs[0]
+		}
+	}
+	return ast.NewIdent("?")
 }
